@@ -13,9 +13,34 @@ var shapes = []string{"chain", "diamond", "fan-in", "shared", "random"}
 const costCap = 400 // bound on the number of dependency paths below any node (see model.costs)
 
 type genr struct {
-	r    *rand.Rand
-	m    *model
-	lazy bool
+	r        *rand.Rand
+	m        *model
+	lazy     bool
+	adapters []int // nodes that turn a composite-valued source into a string
+}
+
+// random composite values: quarters (exact in binary and in decimal), small
+// slices and maps, so that a new value practically never equals the old one
+func randVecs(r *rand.Rand, n int) []vec3 {
+	out := make([]vec3, 0, n)
+	for k := 0; k < n; k++ {
+		out = append(out, vec3{float64(r.Intn(8000)-4000) / 4, float64(r.Intn(8000)-4000) / 4, float64(r.Intn(8000)-4000) / 4})
+	}
+	return out
+}
+
+func randRec(r *rand.Rand) Rec {
+	rc := Rec{A: r.Intn(1_000_000) - 500_000, B: fmt.Sprintf("b%d\"é", r.Intn(1_000_000)), D: RecD{X: float64(r.Intn(8000)-4000) / 4, Y: float64(r.Intn(8000)) / 4}}
+	for k, n := 0, r.Intn(6); k < n; k++ {
+		rc.C = append(rc.C, r.Intn(1_000_000))
+	}
+	for k, n := 0, r.Intn(4); k < n; k++ {
+		if rc.M == nil {
+			rc.M = map[string]int{}
+		}
+		rc.M[fmt.Sprintf("k%d", r.Intn(6))] = r.Intn(1_000_000)
+	}
+	return rc
 }
 
 func (g *genr) kindsAccepting(t typ, wantArr bool) []int {
@@ -77,6 +102,10 @@ func (g *genr) pickSource(i int, t typ, nodeBias float64) *ref {
 // allow), fills its other inputs at random and gives its array input about wantArr entries.
 func (g *genr) addNode(pref []int, wantArr int, nilProb float64) int {
 	i := len(g.m.nodes)
+	if len(pref) == 0 && len(g.adapters) > 0 && g.r.Intn(2) == 0 {
+		// a leaf of the shape: let it consume a composite-valued source
+		pref = []int{g.adapters[g.r.Intn(len(g.adapters))]}
+	}
 	t := tS
 	if len(pref) > 0 {
 		t = kinds[g.m.nodes[pref[0]].kind].out
@@ -160,7 +189,9 @@ func (g *genr) arrLen() int {
 	}
 }
 
-func genGraph(r *rand.Rand, shape string, nn, np int, lazy bool) *model {
+// nc = number of composite-valued sources (parameter.Vector3Array / parameter.Value[Rec])
+// on top of the np scalar ones; each gets an adapter node at the bottom of the graph.
+func genGraph(r *rand.Rand, shape string, nn, np, nc int, lazy bool) *model {
 	m := &model{}
 	g := &genr{r: r, m: m, lazy: lazy}
 	for k := 0; k < np; k++ {
@@ -171,6 +202,17 @@ func genGraph(r *rand.Rand, shape string, nn, np int, lazy bool) *model {
 		p.s = fmt.Sprintf("d%d", k)
 		p.i = 1000 + k
 		m.params = append(m.params, p)
+	}
+	for k := 0; k < nc; k++ {
+		p := mparam{t: tV, v: randVecs(r, r.Intn(5))}
+		kd := kVFmt
+		if r.Intn(2) == 0 {
+			p = mparam{t: tR, rc: randRec(r)}
+			kd = kRFmt
+		}
+		m.params = append(m.params, p)
+		m.nodes = append(m.nodes, mnode{kind: kd, named: []*ref{{param: true, idx: len(m.params) - 1}}, lastExec: -1})
+		g.adapters = append(g.adapters, len(m.nodes)-1)
 	}
 	switch shape {
 	case "chain":
